@@ -26,7 +26,7 @@ BUDGET = {
 }
 REQUIRED_PROBES = ["unary", "sstream", "cstream", "bidi", "void_output", "foreign_request", "form_none", "form_dict",
                    "form_msg", "retried_identical_payload", "concurrent_callers", "crossing_replies", "stream_cut",
-                   "second_client_same_process", "keyword_rpc", "async_stream"]
+                   "second_client_same_process", "keyword_rpc", "async_stream", "presence_only_request"]
 ASSUMPTIONS = ["client-streaming and bidi calls are not driven through retried attempts (a consumed request iterator "
                "cannot be replayed; outside the property)"]
 
@@ -95,6 +95,11 @@ def gen_op(spec, rng, codec, fs, s, m, k, oid, client):
     if k in ("unary", "sstream"):
         op["form"] = rng.choice(["msg", "dict", "dict", "none"])
         op["request"] = {} if op["form"] == "none" else values.rand_valuation(rng, codec.desc(m["input"]), 0, 3, 0.6)
+        if op["form"] != "none" and rng.random() < 0.12:
+            pv = values.presence_only_valuation(rng, codec.desc(m["input"]))
+            if pv:
+                op["request"] = pv
+                op["presence_only"] = True
     else:
         op["form"] = rng.choice(["msg", "dict"])
         op["requests"] = [tagged(rng, codec, m["input"], f"req-{oid}-{i}") for i in range(rng.randint(0, 4))]
@@ -185,6 +190,8 @@ def judge_op(spec, codec, scenario, op, evs, probes):
     if not m["input"].startswith("." + spec["package"]):
         _bump(probes, "foreign_request")
     _bump(probes, "form_" + op.get("form", "dict"))
+    if op.get("presence_only"):
+        _bump(probes, "presence_only_request")
     if k != "unary" and scenario["client"] == "async":
         _bump(probes, "async_stream")
 
